@@ -49,7 +49,8 @@ Inductive killres := KOk | KEsrch | KEperm | KOverflow.
    (used by the fallback 'pid in pids()') *)
 Definition pid_exists_linux (pid : Z) (k : killres) (status : option bytes) (names : list bytes)
   : outcome bool :=
-  let fallback := do pl <- pids_text names; Val (zmem pid (fst pl)) in
+  (* 'pid in pids()' inside _pslinux is the platform pids(): unsorted, no _LOWEST_PID, no IndexError *)
+  let fallback := do l <- plat_pids names; Val (zmem pid l) in
   match k with
   | KEsrch | KOverflow => Val false               (* _psposix.pid_exists -> False *)
   | KOk | KEperm =>
@@ -363,12 +364,14 @@ Section Step.
        _psposix.pid_exists first (kill), then 'except (OSError, ValueError): return pid in pids()' *)
     | PidExistsF n _ =>
       if n <? 0 then (s, OBool false)
-      else if (n =? 0) || ((n <=? PIDMAX) && negb (id_free (tbl s) n)) then   (* pid in pids() *)
+      else if n =? 0 then                                         (* psutil.pid_exists(0): pid in psutil.pids() *)
         match pids_sorted (listing (tbl s)) with
-        | Val (l, low) => (with_lowest s low, OBool (zmem n l))
+        | Val (l, low) => (with_lowest s low, OBool (zmem 0 l))
         | Exc e => (s, OExc e)
         | OutOfModel => (s, OOom)
         end
+      else if (n <=? PIDMAX) && negb (id_free (tbl s) n)
+      then (s, OBool (zmem n (listing (tbl s))))                  (* the platform pids(): no _LOWEST_PID *)
       else (s, OBool false)                                      (* OverflowError / ESRCH from os.kill *)
     end.
 
